@@ -38,6 +38,26 @@ func tokCall(kind, api, form string, t *out.Tree) *out.Call {
 	return c
 }
 
+// realCall: a library struct marshaled by reflection (out.RealValues). raw says
+// whether the library reads the marshaled text as raw tokens (Encode,
+// EncodeElement) or as resolved tokens (the Encode<Stanza> family).
+func realCall(kind, api, skind, name string, raw bool) *out.Call {
+	c := &out.Call{Kind: kind, API: api, SKind: skind, Form: "real:" + name}
+	toks, err := out.MarshalRaw(out.RealValues[name], raw)
+	if err != nil {
+		panic(err)
+	}
+	c.Toks = toks
+	res, err := out.MarshalRaw(out.RealValues[name], false)
+	if err != nil {
+		panic(err)
+	}
+	if f, ok := out.ParseForest(res); ok && len(f) == 1 {
+		c.Expect = f[0]
+	}
+	return c
+}
+
 // corpus: minimal witnesses of the defects found on the pinned tree (fixed or
 // known); always run first.
 func corpus() []*out.Scenario {
@@ -91,8 +111,8 @@ func corpus() []*out.Scenario {
 	seq(true, tokCall("send", "Send", "", el("", "message", []out.MAttr{at("", "m", "c10"), at("urn:a", "id", "x"), at("urn:a", "from", ""), at(out.XMLURL, "id", "")}, body)),
 		tokCall("tokenwriter", "TokenWriter", "", el(out.NSServer, "presence", []out.MAttr{at("", "m", "c12"), at("urn:a", "xmlns", "v")},
 			el("urn:x", "x", []out.MAttr{at("urn:a", "xmlns", "w"), at("", "xmlns", "urn:x")}))))
-	// ... except in SendIQ / SendMessage / SendPresence, whose id lookup is by local
-	// name: the empty {urn:a}id is overwritten with the generated id (known)
+	// ... nor for SendIQ / SendMessage / SendPresence (getIDTyp, fixed on main by
+	// 4072a5f): the empty {urn:a}id is left alone, an unqualified id is added
 	{
 		iq := el("", "iq", []out.MAttr{at("", "m", "c13"), at("urn:a", "id", ""), at("", "type", "result")})
 		cx := &out.Call{Kind: "sendx", SKind: "iq", API: "SendIQ", Src: iq.Tokens(), Expect: iq}
@@ -106,5 +126,23 @@ func corpus() []*out.Scenario {
 	}
 	seq(true, tokCall("send", "Send", "", el(out.NSServer, "message", []out.MAttr{at("", "xmlns", out.NSServer), at("", "m", "c11"), at("", "from", "")},
 		el("", "message", []out.MAttr{at("", "id", "")}, el(out.NSClient, "iq", []out.MAttr{at("", "xmlns", out.NSClient)})), txt(string(big)))))
+	// library structs through encoding/xml's reflection: Encode, EncodeElement and
+	// the Encode<Stanza> family
+	seq(false, realCall("encode", "Encode/real", "", "message", true), realCall("encode", "Encode/real", "", "presence", true),
+		realCall("sendx", "EncodeIQ", "iq", "iq-ping", false), realCall("sendx", "EncodeMessage", "message", "message-body", false))
+	{
+		c := realCall("encodeelement", "EncodeElement/real", "", "message-body", true)
+		st := el("", "message", []out.MAttr{at("", "m", "c14"), at("", "to", "b@example.org")})
+		c.Start = startTok(st)
+		v := c.Expect
+		var own []out.MAttr
+		for _, a := range v.Attrs {
+			if !(a.Name.Space == "" && a.Name.Local == "xmlns") {
+				own = append(own, a)
+			}
+		}
+		c.Expect = el("", "message", append(append([]out.MAttr(nil), st.Attrs...), own...), v.Kids...)
+		seq(true, realCall("encode", "Encode/real", "", "iq-ping", true), c)
+	}
 	return scs
 }
